@@ -556,3 +556,83 @@ def string_with_break(rng):
     s = gen_quoted(rng)
     i = rng.randrange(1, len(s))
     return s[:i] + rng.choice(LINE_BREAKS) + s[i:]
+
+
+# ---------------------------------------------------------------- productions, deterministically
+# One maximal token sequence per production (every optional part present once).  production_forms()
+# enumerates, without sampling: every prefix (truncation after each token, including keyword-only),
+# every one-token deletion, and the body-less shapes (name only, name + directives, name + empty
+# braces, name + directives + empty braces) of every definition and extension kind; each alone,
+# followed by another definition, and between two other definitions.
+PRODUCTIONS = {
+    "schema": "schema @ d { query : Q mutation : M }",
+    "scalar": "scalar S @ d",
+    "type": "type T implements & I & J @ d { f ( x : Int = 1 @ d y : [ Int ! ] ) : Int @ d g : T }",
+    "interface": "interface I @ d { f : Int }",
+    "union": "union U @ d = | A | B",
+    "enum": "enum E @ d { A @ d B }",
+    "input": "input N @ d { x : Int = 1 @ d y : Int }",
+    "directive": "directive @ d ( x : Int = 1 ) on FIELD | QUERY",
+    "described": '"desc" type T { "desc" f ( "desc" x : Int ) : Int }',
+    "described-enum": '"""desc""" enum E { "desc" A }',
+    "extend-schema": "extend schema @ d { query : Q }",
+    "extend-scalar": "extend scalar S @ d",
+    "extend-type": "extend type T implements I & J @ d { f : Int }",
+    "extend-interface": "extend interface I @ d { f : Int }",
+    "extend-union": "extend union U @ d = | A | B",
+    "extend-enum": "extend enum E @ d { A }",
+    "extend-input": "extend input N @ d { x : Int }",
+    "operation": "query Q ( $ v : [ Int ! ] = 1 @ d $ w : T ) @ d ( x : 1 ) { a : b ( x : $ v y : { k : [ 1 ] } ) "
+                 "@ d { c } ... on T @ d { e } ... F @ d ... @ d { g } ... { h } }",
+    "mutation": "mutation { a }",
+    "subscription": "subscription S { a }",
+    "shorthand": "{ a }",
+    "fragment": "fragment F on T @ d { a }",
+    "fragment-vars": "fragment F ( $ v : Int = 1 ) on T { a ( x : $ v ) }",
+}
+BODYLESS_KINDS = [("schema", None), ("scalar", "S"), ("type", "T"), ("interface", "I"), ("union", "U"),
+                  ("enum", "E"), ("input", "N"), ("directive", "@ d")]
+
+
+def production_forms():
+    seen = set()
+    forms = []
+
+    def add(toks, label):
+        text = " ".join(toks)
+        if text not in seen:
+            seen.add(text)
+            forms.append((text, label))
+
+    for kind, full in PRODUCTIONS.items():
+        toks = full.split(" ")
+        for i in range(len(toks) + 1):
+            add(toks[:i], "prefix:" + kind)
+        for i in range(len(toks)):
+            add(toks[:i] + toks[i + 1:], "drop:" + kind)
+    for ext in ((), ("extend",)):
+        add(list(ext), "bodyless:keyword-only")
+        for kw, name in BODYLESS_KINDS:
+            head = list(ext) + [kw] + (name.split(" ") if name else [])
+            label = "bodyless:" + ("extend-" if ext else "") + kw
+            add(list(ext) + [kw], label)
+            add(head, label)
+            add(head + ["@", "d"], label)
+            add(head + ["@", "d", "@", "e", "(", "x", ":", "1", ")"], label)
+            add(head + ["{", "}"], label)
+            add(head + ["@", "d", "{", "}"], label)
+            add(head + ["="], label)
+            for v in RESERVED_VALUES:
+                add(head + ["{", v, "}"], label)
+                add(head + ["{", "A", v, "}"], label)
+            add(head + ["implements"], label)
+            add(head + ["implements", "I"], label)
+            add(head + ["implements", "I", "@", "d"], label)
+            add(head + ["implements", "I", "{", "}"], label)
+    out = []
+    for text, label in forms:
+        out.append((text, label))
+        out.append(((text + " scalar Z").strip(), label + "+next"))
+        out.append(("scalar A " + text + " type Z { z : Int }", label + "+between"))
+        out.append(("{ a } " + text + " { z }", label + "+between-exec"))
+    return out
